@@ -495,6 +495,146 @@ func c14tcpIdle(env *Env, out *sync.Mutex, rng *Rng) {
 	c14emit(env, out, "tcp", "idle", 2, a, p, panics.Load(), extra)
 }
 
+// ---------------------------------------------------------------------------------- close / wait
+// c14gate wraps the exporter's connection (hook VerifWrapConn). Once armed, the next Write - the
+// template refresher's: the application does not send while the gate is armed - is held until
+// the harness releases it. The wrapper also sees when conn.Close is called (the closing call is
+// past its Swap) and counts bytes that a write STARTED after some CloseConnToCollector call had
+// returned managed to put on the wire.
+type c14gate struct {
+	net.Conn
+	armed       atomic.Bool
+	enteredOnce sync.Once
+	entered     chan struct{}
+	release     chan struct{}
+	closeOnce   sync.Once
+	closeCalled chan struct{}
+	returned    atomic.Int64 // CloseConnToCollector calls that have returned
+	lateBytes   atomic.Int64
+}
+
+func (g *c14gate) Write(b []byte) (int, error) {
+	late := g.returned.Load() > 0
+	if g.armed.Load() {
+		g.enteredOnce.Do(func() { close(g.entered) })
+		<-g.release
+	}
+	n, err := g.Conn.Write(b)
+	if late && err == nil && n > 0 {
+		g.lateBytes.Add(int64(n))
+	}
+	return n, err
+}
+
+func (g *c14gate) Close() error {
+	g.closeOnce.Do(func() { close(g.closeCalled) })
+	return g.Conn.Close()
+}
+
+// c14closeWait: "closing stops all background work" for EVERY CloseConnToCollector call. The
+// refresher is held inside a Write; a first CloseConnToCollector is started and has reached
+// conn.Close; then `more` further goroutines call CloseConnToCollector. While the refresher is
+// still running none of these calls may return (one-sided timing: on a correct tree they block
+// for as long as the gate is shut; a wrong tree returns within microseconds). After the release
+// every call must return, the refresher must be gone, and nothing may have been written by a
+// write that started after a close had returned.
+func c14closeWait(env *Env, out *sync.Mutex, rng *Rng, more int) {
+	conn, p := c14udpPeer()
+	defer conn.Close()
+	ep, err := exporter.InitExportingProcess(exporter.ExporterInput{
+		CollectorAddress: conn.LocalAddr().String(), CollectorProtocol: "udp", ObservationDomainID: 1, TempRefTimeout: 1})
+	if err != nil {
+		panic(err)
+	}
+	g := &c14gate{entered: make(chan struct{}), release: make(chan struct{}), closeCalled: make(chan struct{})}
+	ep.VerifWrapConn(func(c net.Conn) net.Conn { g.Conn = c; return g })
+	a := &c14app{ep: ep}
+	k := 1 + rng.Intn(3)
+	for i := 0; i < k; i++ {
+		a.sendTemplate()
+	}
+	for i := rng.Intn(4); i > 0; i-- {
+		a.sendData(rng)
+	}
+	g.armed.Store(true)
+	var reasons []string
+	var panics atomic.Int64
+	inWrite := false
+	select {
+	case <-g.entered:
+		inWrite = true
+	case <-time.After(8 * time.Second):
+		// no refresh tick within 8 s: nothing to observe (the refresh scenarios report that)
+	}
+	done := make(chan int, 1+more)
+	closer := func(id int) {
+		defer func() {
+			if r := recover(); r != nil {
+				panics.Add(1)
+			}
+			g.returned.Add(1)
+			done <- id
+		}()
+		ep.CloseConnToCollector()
+	}
+	go closer(0)
+	select {
+	case <-g.closeCalled:
+	case <-time.After(8 * time.Second):
+		reasons = append(reasons, "CloseConnToCollector-did-not-close-the-connection")
+	}
+	for i := 1; i <= more; i++ {
+		go closer(i)
+	}
+	returnedEarly := 0
+	if inWrite {
+		// the refresher is inside Write: background work is still running
+		timer := time.After(300 * time.Millisecond)
+	wait:
+		for {
+			select {
+			case <-done:
+				returnedEarly++
+			case <-timer:
+				break wait
+			}
+		}
+		if returnedEarly > 0 {
+			reasons = append(reasons, "a-CloseConnToCollector-call-returned-while-a-background-goroutine-was-still-running")
+		}
+	}
+	close(g.release)
+	pending := 1 + more - returnedEarly
+	deadline := time.After(15 * time.Second)
+	for pending > 0 {
+		select {
+		case <-done:
+			pending--
+		case <-deadline:
+			reasons = append(reasons, "a-CloseConnToCollector-call-did-not-return")
+			pending = 0
+		}
+	}
+	// every close has returned: the sends must fail and nothing more may reach the peer
+	for i := 0; i < 5; i++ {
+		a.sendData(rng)
+	}
+	p.drain()
+	if g.lateBytes.Load() > 0 {
+		reasons = append(reasons, "bytes-were-written-by-a-write-started-after-a-CloseConnToCollector-call-returned")
+	}
+	extra := ""
+	if len(reasons) > 0 {
+		extra = " " + reasons[0]
+	}
+	if inWrite {
+		out.Lock()
+		env.Count("closewait: refresher held inside Write")
+		out.Unlock()
+	}
+	c14emit(env, out, "udp", "closewait", 1+more, a, p, panics.Load(), extra)
+}
+
 func c14background() int {
 	buf := make([]byte, 1<<22)
 	n := runtime.Stack(buf, true)
@@ -506,12 +646,12 @@ func runC14(env *Env) {
 	var wg sync.WaitGroup
 	type job func(rng *Rng)
 	var jobs []job
-	nrefresh, nclose, npeer := 6, 64, 16
+	nrefresh, nclose, npeer, nwait := 6, 64, 16, 4
 	if env.Thorough() {
-		nrefresh, nclose, npeer = 12, 400, 60
+		nrefresh, nclose, npeer, nwait = 12, 400, 60, 16
 	}
 	if len(env.Replay) > 0 {
-		nrefresh, nclose, npeer = 0, 0, 0
+		nrefresh, nclose, npeer, nwait = 0, 0, 0, 0
 		for _, l := range env.Replay {
 			t := strings.Fields(l)
 			if len(t) < 4 || t[0] != "C14" {
@@ -520,6 +660,8 @@ func runC14(env *Env) {
 			switch t[1] + " " + t[2] {
 			case "udp refresh":
 				nrefresh += 2
+			case "udp closewait":
+				nwait += 2
 			case "tcp peer":
 				npeer += 8
 			default:
@@ -530,6 +672,10 @@ func runC14(env *Env) {
 	for i := 0; i < nrefresh; i++ {
 		c := 1 + i%4
 		jobs = append(jobs, func(rng *Rng) { c14udp(env, &out, rng, true, c) })
+	}
+	for i := 0; i < nwait; i++ {
+		c := 1 + i%3
+		jobs = append(jobs, func(rng *Rng) { c14closeWait(env, &out, rng, c) })
 	}
 	for i := 0; i < nclose; i++ {
 		c := 1 + i%4
